@@ -188,6 +188,43 @@ NBT_DIM = ('compound', [
 JSONS = ['', '{"text":""}', '{"text":"hi"}',
          '{"translate":"chat.type.text","with":["hé","€ \U0001f600"]}',
          '"plain"', 'é' * 64, 'x' * 127, 'x' * 128]
+# strings of at most 32767 characters (the documented limit of Chat, status
+# JSON and disconnect reason in every release) whose UTF-8 length lies at and
+# across 32767 bytes: (label, text)
+CJK = '\u4e2d'           # 3 bytes
+
+
+def long_strings(tier):
+    out = [
+        ('3-byte x10922 + 1 = 32767 bytes', 'a' + CJK * 10922),
+        ('3-byte x10922 + 2 = 32768 bytes', 'ab' + CJK * 10922),
+        ('3-byte x10923 = 32769 bytes', CJK * 10923),
+        ('2-byte x16384 = 32768 bytes', '\xe9' * 16384),
+        ('JSON text of 10920 3-byte characters = 32771 bytes',
+         '{"text":"' + CJK * 10920 + '"}'),
+        ('3-byte x32767 = 98301 bytes', '\u20ac' * 32767),
+    ]
+    if tier == 'thorough':
+        out += [
+            ('3-byte x10922 = 32766 bytes', CJK * 10922),
+            ('2-byte x16383 + 1 = 32767 bytes', '\xe9' * 16383 + 'a'),
+            ('2-byte x16383 = 32766 bytes', '\xe9' * 16383),
+            ('4-byte x8192 = 32768 bytes', '\U0001f600' * 8192),
+            ('2-byte x32767 = 65534 bytes', '\xe9' * 32767),
+            ('ASCII x32767 = 32767 bytes', 'x' * 32767),
+            ('mixed 1/2/3-byte x5462 = 32772 bytes', 'a\xe9\u20ac' * 5462),
+        ]
+    for label, text in out:
+        if len(text) > 32767 or len(ref.utf8(text)) != int(
+                label.split(' = ')[1].split()[0]):
+            raise ToolError('long string %r mislabelled' % label)
+    return out
+
+
+LONG_STRING_FIELDS = (('status.response', 'json'),
+                      ('login.disconnect', 'reason'),
+                      ('play.disconnect', 'reason'), ('play.chat', 'json'))
+
 WORLDS = ['minecraft:overworld', 'minecraft:the_nether', 'minecraft:the_end',
           'x:y', '', 'custom:hé']
 
@@ -315,11 +352,15 @@ def build_alphabets(tier, seed):
                         ('login.disconnect', 'reason'),
                         ('play.disconnect', 'reason'), ('play.chat', 'json')):
         by_field[(name, field)] = JSONS + by_type['string'][9:]
-    return by_type, by_field
+    # 'extras': members that are not multiplied with the other fields (one
+    # vector each, the other fields at their base values)
+    longs = [text for _, text in long_strings(tier)]
+    extras = {key: list(longs) for key in LONG_STRING_FIELDS}
+    return by_type, by_field, extras
 
 
 def alphabet(alph, name, field, typ, version):
-    by_type, by_field = alph
+    by_type, by_field = alph[0], alph[1]
     if name == 'play.join_game':
         if field == 'gamemode':
             # the hardcore flag 0x8 lives in this byte until 1.16.1
@@ -344,6 +385,8 @@ def alphabet(alph, name, field, typ, version):
                'é' * 100]
         if version >= 315:      # limit raised from 100 to 256 in 1.11
             out += ['x' * 256, '€' * 256]
+        else:
+            out += ['€' * 100]
         return out
     if (name, field) in by_field:
         return by_field[(name, field)]
@@ -369,10 +412,10 @@ def vectors(alph, name, version, seed, limit=400):
     for a in A:
         size *= len(a)
     raw = []
+    base = [a[(2 * i + 3) % len(a)] for i, a in enumerate(A)]
     if size <= limit:
         raw = [list(c) for c in itertools.product(*A)]
     else:
-        base = [a[(2 * i + 3) % len(a)] for i, a in enumerate(A)]
         for i, a in enumerate(A):
             for x in a:
                 v = list(base)
@@ -381,6 +424,11 @@ def vectors(alph, name, version, seed, limit=400):
         for k in range(max(len(a) for a in A)):
             raw.append([a[(k + i) % len(a)] for i, a in enumerate(A)])
             raw.append([a[(k * (i + 1)) % len(a)] for i, a in enumerate(A)])
+    for i, f in enumerate(fields):
+        for x in alph[2].get((name, f), ()):
+            v = list(base)
+            v[i] = x
+            raw.append(v)
     seen, out = set(), []
     for v in raw:
         key = repr(v)
@@ -512,25 +560,89 @@ def short(b, n=64):
     return h if len(h) <= 2 * n else '%s...(%d bytes)' % (h[:2 * n], len(b))
 
 
+def brief(v):
+    """repr with long strings / byte strings cut (length facts kept)."""
+    if isinstance(v, str) and len(v) > 80:
+        return '%s...(%d characters, %d UTF-8 bytes)' % (
+            repr(v[:24])[:-1], len(v), u8len(v))
+    if isinstance(v, (bytes, bytearray)) and len(v) > 80:
+        return 'bytes %s' % short(v, 24)
+    if isinstance(v, dict):
+        return '{%s}' % ', '.join('%r: %s' % (k, brief(x))
+                                  for k, x in v.items())
+    if isinstance(v, (list, tuple)) and any(
+            isinstance(x, (str, bytes, bytearray)) and len(x) > 80
+            for x in v):
+        return '[%s]' % ', '.join(brief(x) for x in v)
+    return repr(v)
+
+
 def show(values):
-    s = repr(values)
-    return s if len(s) <= 300 else s[:300] + '...'
+    s = brief(values)
+    return s if len(s) <= 400 else s[:400] + '...'
 
 
 def attr_of(name, field):
     return PY[name][3].get(field, field)
 
 
-def check_ids(ctx, version, name):
+# -- context regimes -------------------------------------------------------------
+# Every judgement below takes a Regime: how the ConnectionContext of the case
+# is obtained.  mode -> (suffix of violation keys, words for the explanation)
+MODES = {
+    'fresh': ('', ''),
+    'moving': (' ctx=re-assigned',
+               'the ConnectionContext is ONE object whose protocol_version '
+               'was re-assigned in place on the way here, as '
+               'Connection.connect does'),
+    'live': (' ctx=long-lived',
+             'the ConnectionContext is a long-lived one of this release, '
+             'created before the contexts of the other releases were used'),
+}
+WALKS = 16      # independent walks per non-fresh regime (vector slices)
+
+
+class Regime(object):
+    def __init__(self, mode='fresh', context=None, hist=None, prev=None):
+        self.mode, self.context, self.hist, self.prev = \
+            mode, context, hist, prev
+
+    def ctx_for(self, version):
+        if self.context is None:
+            return py_context(version)
+        if self.context.protocol_version != version:
+            raise ToolError('regime context is at %r, case is for %d'
+                            % (self.context.protocol_version, version))
+        return self.context
+
+    def key(self, k):
+        return k + MODES[self.mode][0]
+
+    def what(self, w):
+        if self.mode == 'fresh':
+            return w
+        return '%s\n[%s; release used before this one: %s.  With a fresh ' \
+            'context the same case is judged separately.]' % (
+                w, MODES[self.mode][1], self.prev)
+
+    def case(self, c):
+        return dict(c, history=self.hist) if self.hist else c
+
+
+FRESH = Regime()
+
+
+def check_ids(ctx, version, name, rg=FRESH):
     """(c): the lookup the reactor really does / the id a writer will use."""
     from minecraft.networking import connection as C
     direction, state, clsname, _ = PY[name]
     want = rel.ids(version)[name]
-    case = {'version': version, 'name': name, 'kind': 'lookup', 'values': None}
+    case = rg.case({'version': version, 'name': name, 'kind': 'lookup',
+                    'values': None})
     ctx.count()
     try:
         cls = py_class(name)
-        context = py_context(version)
+        context = rg.ctx_for(version)
         if direction == 'clientbound':
             R = {'status': C.StatusReactor, 'login': C.LoginReactor,
                  'play': C.PlayingReactor}[state]
@@ -539,13 +651,13 @@ def check_ids(ctx, version, name):
             if got is not cls:
                 has = sorted(i for i, c in table.items() if c is cls)
                 ctx.violation(
-                    'lookup v=%d %s' % (version, name),
-                    'protocol %d: the documented id of %s (%s) is 0x%02X; '
-                    '%s(...).clientbound_packets[0x%02X] is %s, and %s is '
-                    'registered under %s' % (
-                        version, name, clsname, want, R.__name__, want,
-                        getattr(got, '__name__', got), clsname,
-                        ['0x%02X' % i for i in has] or 'no id'), case)
+                    rg.key('lookup v=%d %s' % (version, name)), rg.what(
+                        'protocol %d: the documented id of %s (%s) is 0x%02X; '
+                        '%s(...).clientbound_packets[0x%02X] is %s, and %s is '
+                        'registered under %s' % (
+                            version, name, clsname, want, R.__name__, want,
+                            getattr(got, '__name__', got), clsname,
+                            ['0x%02X' % i for i in has] or 'no id')), case)
                 ctx.outcome('lookup WRONG')
                 return False
             ctx.outcome('reactor lookup selects class')
@@ -553,9 +665,10 @@ def check_ids(ctx, version, name):
             got = cls.get_id(context)
             if got != want or isinstance(got, bool):
                 ctx.violation(
-                    'id v=%d %s' % (version, name),
-                    'protocol %d: the documented id of %s (%s) is 0x%02X; '
-                    'get_id gives %r' % (version, name, clsname, want, got),
+                    rg.key('id v=%d %s' % (version, name)), rg.what(
+                        'protocol %d: the documented id of %s (%s) is 0x%02X; '
+                        'get_id gives %r' % (version, name, clsname, want,
+                                             got)),
                     dict(case, kind='id'))
                 ctx.outcome('id WRONG')
                 return False
@@ -563,27 +676,27 @@ def check_ids(ctx, version, name):
     except ToolError:
         raise
     except Exception as e:
-        ctx.violation('lookup-raises v=%d %s' % (version, name),
-                      'protocol %d %s: building the id table raised %r'
-                      % (version, name, e), case)
+        ctx.violation(rg.key('lookup-raises v=%d %s' % (version, name)),
+                      rg.what('protocol %d %s: building the id table raised '
+                              '%r' % (version, name, e)), case)
         ctx.outcome('lookup RAISED')
         return False
     return True
 
 
-def check_absent(ctx, version, name):
+def check_absent(ctx, version, name, rg=FRESH):
     """(d): a packet documented not to exist in this release must not be in
     the table of its state: a clientbound class registered under any id would
     decode some other packet's frames as this one."""
     from minecraft.networking import connection as C
     from minecraft.networking.packets import clientbound, serverbound
     direction, state, clsname, _ = PY[name]
-    case = {'version': version, 'name': name, 'kind': 'absent',
-            'values': None}
+    case = rg.case({'version': version, 'name': name, 'kind': 'absent',
+                    'values': None})
     ctx.count()
     try:
         cls = py_class(name)
-        context = py_context(version)
+        context = rg.ctx_for(version)
         if direction == 'clientbound':
             R = {'status': C.StatusReactor, 'login': C.LoginReactor,
                  'play': C.PlayingReactor}[state]
@@ -593,48 +706,49 @@ def check_absent(ctx, version, name):
             if at or listed:
                 ctx.outcome('absent packet PRESENT')
                 ctx.violation(
-                    'present v=%d %s' % (version, name),
-                    'protocol %d: %s does not exist in this release, but '
-                    '%s registers %s under %s, so a frame with that id - '
-                    'another packet in this release - is decoded as %s'
-                    % (version, name, R.__name__, clsname,
-                       ['0x%02X' % i for i in at] or 'get_packets', name),
-                    case)
+                    rg.key('present v=%d %s' % (version, name)), rg.what(
+                        'protocol %d: %s does not exist in this release, but '
+                        '%s registers %s under %s, so a frame with that id - '
+                        'another packet in this release - is decoded as %s'
+                        % (version, name, R.__name__, clsname,
+                           ['0x%02X' % i for i in at] or 'get_packets',
+                           name)), case)
                 return False
         else:
             if cls in getattr(serverbound, state).get_packets(context):
                 ctx.outcome('absent packet PRESENT')
                 ctx.violation(
-                    'present v=%d %s' % (version, name),
-                    'protocol %d: %s does not exist in this release, but %s '
-                    'is in serverbound.%s.get_packets'
-                    % (version, name, clsname, state), case)
+                    rg.key('present v=%d %s' % (version, name)), rg.what(
+                        'protocol %d: %s does not exist in this release, but '
+                        '%s is in serverbound.%s.get_packets'
+                        % (version, name, clsname, state)), case)
                 return False
         ctx.outcome('absent packet not registered')
     except ToolError:
         raise
     except Exception as e:
         ctx.outcome('absent check RAISED')
-        ctx.violation('absent-raises v=%d %s' % (version, name),
-                      'protocol %d %s: building the table raised %r'
-                      % (version, name, e), case)
+        ctx.violation(rg.key('absent-raises v=%d %s' % (version, name)),
+                      rg.what('protocol %d %s: building the table raised %r'
+                              % (version, name, e)), case)
         return False
     return True
 
 
-def check_case(ctx, version, name, values):
+def check_case(ctx, version, name, values, rg=FRESH, payload=None):
     """(a) and (b) for one value vector.  True when both agree."""
     from minecraft.networking.packets import PacketBuffer
     L = rel.layout(name, version)
-    payload = rel.encode(name, version, values)
+    if payload is None:
+        payload = rel.encode(name, version, values)
     frame = framing.frame(rel.ids(version)[name], payload)
     cls = py_class(name)
     clsname = PY[name][2]
     ok = True
     # (a) write
     ctx.count()
-    case = {'version': version, 'name': name, 'kind': 'write',
-            'values': values}
+    case = rg.case({'version': version, 'name': name, 'kind': 'write',
+                    'values': values})
     try:
         kw = {}
         for f, t in L:
@@ -643,7 +757,7 @@ def check_case(ctx, version, name, values):
                 kw['data'] = None
                 continue
             kw[attr_of(name, f)] = to_py(name, f, t, values[f])
-        pkt = cls(context=py_context(version), **kw)
+        pkt = cls(context=rg.ctx_for(version), **kw)
         buf = PacketBuffer()
         pkt.write(buf)
         got = buf.get_writable()
@@ -651,13 +765,13 @@ def check_case(ctx, version, name, values):
             ok = False
             ctx.outcome('write DIFFERS')
             ctx.violation(
-                'write v=%d %s' % (version, name),
-                'protocol %d %s (%s): bytes written differ from the '
-                'published layout %s with id 0x%02X.\nvalues   %s\n'
-                'expected %s\ngot      %s%s' % (
-                    version, name, clsname, [t for _, t in L],
-                    rel.ids(version)[name], show(values), short(frame),
-                    short(got), explain(name, version, got)), case)
+                rg.key('write v=%d %s' % (version, name)), rg.what(
+                    'protocol %d %s (%s): bytes written differ from the '
+                    'published layout %s with id 0x%02X.\nvalues   %s\n'
+                    'expected %s\ngot      %s%s' % (
+                        version, name, clsname, [t for _, t in L],
+                        rel.ids(version)[name], show(values), short(frame),
+                        short(got), explain(name, version, got))), case)
         else:
             ctx.outcome('write == reference frame')
     except ToolError:
@@ -666,15 +780,17 @@ def check_case(ctx, version, name, values):
         ok = False
         ctx.outcome('write RAISED')
         ctx.violation(
-            'write-raises v=%d %s %s' % (version, name, type(e).__name__),
-            'protocol %d %s (%s): writing the documented fields %s raised '
-            '%r\nvalues %s' % (version, name, clsname, [f for f, _ in L], e,
-                               show(values)), case)
+            rg.key('write-raises v=%d %s %s'
+                   % (version, name, type(e).__name__)), rg.what(
+                'protocol %d %s (%s): writing the documented fields %s '
+                'raised %r\nvalues %s' % (version, name, clsname,
+                                          [f for f, _ in L], e,
+                                          show(values))), case)
     # (b) read
     ctx.count()
     case = dict(case, kind='read')
     try:
-        pkt = cls(context=py_context(version))
+        pkt = cls(context=rg.ctx_for(version))
         buf = PacketBuffer()
         buf.send(payload)
         buf.reset_cursor()
@@ -697,11 +813,11 @@ def check_case(ctx, version, name, values):
             ok = False
             ctx.outcome('read DIFFERS')
             ctx.violation(
-                'read v=%d %s' % (version, name),
-                'protocol %d %s (%s): decoding a payload in the published '
-                'layout %s gives other values: %s\npayload %s' % (
-                    version, name, clsname, [t for _, t in L],
-                    '; '.join(bad[:6]), short(payload)), case)
+                rg.key('read v=%d %s' % (version, name)), rg.what(
+                    'protocol %d %s (%s): decoding a payload in the '
+                    'published layout %s gives other values: %s\npayload %s'
+                    % (version, name, clsname, [t for _, t in L],
+                       '; '.join(bad[:6]), short(payload))), case)
         else:
             ctx.outcome('read == reference values, consumed exactly')
     except ToolError:
@@ -710,12 +826,127 @@ def check_case(ctx, version, name, values):
         ok = False
         ctx.outcome('read RAISED')
         ctx.violation(
-            'read-raises v=%d %s %s' % (version, name, type(e).__name__),
-            'protocol %d %s (%s): decoding a payload in the published '
-            'layout %s raised %r\npayload %s' % (
-                version, name, clsname, [t for _, t in L], e,
-                short(payload)), case)
+            rg.key('read-raises v=%d %s %s'
+                   % (version, name, type(e).__name__)), rg.what(
+                'protocol %d %s (%s): decoding a payload in the published '
+                'layout %s (values %s) raised %r\npayload %s' % (
+                    version, name, clsname, [t for _, t in L], show(values),
+                    e, short(payload))), case)
     return ok
+
+
+# -- (e) echo ----------------------------------------------------------------------
+# which -> (clientbound packet, serverbound packet, field of both)
+ECHO = {
+    'keep_alive': ('play.keep_alive', 'sb.play.keep_alive', 'keep_alive_id'),
+    'teleport': ('play.position_and_look', 'sb.play.teleport_confirm',
+                 'teleport_id'),
+}
+ECHO_BASE = {'x': 8.5, 'y': 64.0, 'z': -8.5, 'yaw': 90.0, 'pitch': -45.0,
+             'flags': 0, 'dismount_vehicle': False}
+
+
+def echo_ids(alph, typ):
+    """Boundary ids as values of the wire type (varint: signed 32-bit, i.e.
+    the 32-bit pattern; long: signed 64-bit), without repeats."""
+    if typ == 'varint':
+        pats = [x % (1 << 32) for x in alph[0]['varint']] + \
+            [x % (1 << 32) for x in (-1, -129, -2147483648)] + \
+            [0x7FFFFFFF, 0x80000000, 0x80000001, 0xFFFFFF7F, 0xFFFFFFFF,
+             0xDEADBEEF]
+        ids_ = [p - (1 << 32) if p >> 31 else p for p in pats]
+    elif typ == 'long':
+        ids_ = list(alph[0]['long']) + [
+            (1 << 63) - 1, -(1 << 63), -1, (1 << 63) - 2, -(1 << 63) + 1,
+            0x80000000, 0xFFFFFFFF, 0xDEADBEEF,
+            0xDEADBEEFDEADBEEF - (1 << 64)]
+    else:
+        raise ToolError('echo id of wire type %r' % typ)
+    out = []
+    for i in ids_:
+        if i not in out:
+            out.append(i)
+    return out
+
+
+def echo_cases(alph, version):
+    out = []
+    for which in sorted(ECHO):
+        cb, sb, field = ECHO[which]
+        Ls = rel.layout(sb, version)
+        if Ls is None:
+            continue                # teleport confirm does not exist in 1.8
+        typ = dict(rel.layout(cb, version))[field]
+        if Ls != [(field, typ)]:
+            raise ToolError('echo %s: layouts %r' % (which, Ls))
+        out += [(which, i) for i in echo_ids(alph, typ)]
+    return out
+
+
+def check_echo(ctx, version, which, wire, rg=FRESH):
+    """(e): an id decoded from the server's bytes and copied into the answer
+    must go out as the bytes the server sent.  The Python value in between is
+    not looked at."""
+    from minecraft.networking.packets import PacketBuffer
+    cb, sb, field = ECHO[which]
+    Lc = rel.layout(cb, version)
+    typ = dict(Lc)[field]
+    values = {f: (wire if f == field else ECHO_BASE[f]) for f, _ in Lc}
+    payload = rel.encode(cb, version, values)
+    id_bytes = rel.enc_field(typ, wire)
+    want = rel.packet_frame(sb, version, {field: wire})
+    if id_bytes not in payload or not want.endswith(id_bytes):
+        raise ToolError('echo reference frames do not carry the id bytes')
+    case = rg.case({'version': version, 'name': cb, 'kind': 'echo',
+                    'echo': which, 'wire': wire, 'values': None})
+    top = wire < 0
+    ctx.count()
+    ctx.cls('echo %s id as %s, top bit of the wire type %s'
+            % (which, typ, 'set' if top else 'clear'))
+    pattern = '0x%X' % (wire % (1 << (32 if typ == 'varint' else 64)))
+    got_id = '(not decoded)'
+    try:
+        context = rg.ctx_for(version)
+        pkt = py_class(cb)(context=context)
+        buf = PacketBuffer()
+        buf.send(payload)
+        buf.reset_cursor()
+        pkt.read(buf)
+        got_id = getattr(pkt, field)
+        # PlayingReactor.react: new serverbound packet, id copied over;
+        # Connection.write_packet: context set; then Packet.write
+        answer = py_class(sb)()
+        setattr(answer, field, got_id)
+        answer.context = context
+        out = PacketBuffer()
+        answer.write(out)
+        got = out.get_writable()
+        if got != want:
+            ctx.outcome('echo DIFFERS')
+            ctx.violation(
+                rg.key('echo v=%d %s' % (version, which)), rg.what(
+                    'protocol %d: the server sends %s with %s = %s %s '
+                    '(bytes %s); pyCraft decodes it (as %r) and the answer '
+                    '%s built from that value is written as %s, the '
+                    'published answer carrying the same id bytes is %s'
+                    % (version, cb, field, typ, pattern, id_bytes.hex(),
+                       got_id, sb, short(got), short(want))), case)
+            return False
+        ctx.outcome('echo == the id bytes the server sent')
+    except ToolError:
+        raise
+    except Exception as e:
+        ctx.outcome('echo RAISED')
+        ctx.violation(
+            rg.key('echo-raises v=%d %s %s'
+                   % (version, which, type(e).__name__)), rg.what(
+                'protocol %d: the server sends %s with %s = %s %s (bytes '
+                '%s); decoding it (got %r) and writing the answer %s with '
+                'that value raised %r; the published answer is %s'
+                % (version, cb, field, typ, pattern, id_bytes.hex(), got_id,
+                   sb, e, short(want))), case)
+        return False
+    return True
 
 
 def explain(name, version, got_frame):
@@ -737,14 +968,32 @@ def explain(name, version, got_frame):
         return ''
 
 
+_U8LEN = {}
+
+
+def u8len(s):
+    if len(s) < 1000:
+        return len(ref.utf8(s))
+    if s not in _U8LEN:
+        _U8LEN[s] = len(ref.utf8(s))
+    return _U8LEN[s]
+
+
 def classify(ctx, version, name, values):
     L = rel.layout(name, version)
     for f, t in L:
         v = values[f]
-        if t == 'string' and any(ord(c) > 127 for c in v):
-            ctx.cls('string with non-ASCII (bytes != chars)')
-        if t == 'string' and len(ref.utf8(v)) >= 128:
-            ctx.cls('string with multi-byte length prefix')
+        if t == 'string':
+            n = u8len(v)
+            if n != len(v):
+                ctx.cls('string with non-ASCII (bytes != chars)')
+            if n >= 128:
+                ctx.cls('string with multi-byte length prefix')
+            if n > 32767 and len(v) <= 32767:
+                ctx.cls('string over 32767 UTF-8 bytes within 32767 '
+                        'characters: %s' % name)
+            if n == 32767:
+                ctx.cls('string of exactly 32767 UTF-8 bytes')
         if t == 'varint' and v < 0:
             ctx.cls('VarInt negative on the wire (5 bytes)')
         if t == 'varint' and v >= 268435456:
@@ -768,35 +1017,146 @@ def classify(ctx, version, name, values):
     if name == 'play.join_game':
         ctx.cls('join game layout of %d fields, dimension %s'
                 % (len(L), dict(L)['dimension']))
+    if name == 'sb.play.chat' and len(values['message']) == (
+            256 if version >= 315 else 100) and \
+            u8len(values['message']) == 3 * len(values['message']):
+        ctx.cls('serverbound chat at its character limit, 3-byte characters')
 
 
-def worker(ctx, version):
-    use_repo()
-    alph = build_alphabets(ctx.tier, ctx.seed)
+# -- enumeration ---------------------------------------------------------------------
+_ALPH = {}
+_VEC = {}       # filled by run() before the fork, so the walks share it
+
+
+def alphabets(tier, seed):
+    if (tier, seed) not in _ALPH:
+        _ALPH[(tier, seed)] = build_alphabets(tier, seed)
+    return _ALPH[(tier, seed)]
+
+
+def all_vectors(tier, seed, version, name):
+    k = (tier, seed, version, name)
+    if k in _VEC:
+        return _VEC[k]
+    return vectors(alphabets(tier, seed), name, version, seed,
+                   4000 if tier == 'thorough' else 400)
+
+
+def judge_release(ctx, version, rg, tier, seed, k=0, K=1, cache=None,
+                  first=True):
+    """Everything of one release under one regime.  k, K: only the vectors
+    k, k+K, ... of every packet; the id lookups, absent entries and echoes
+    are carried by k == 0.  cache: (version, name) -> [[values, payload]]
+    kept between the visits of a walk."""
+    fresh = rg.mode == 'fresh'
+    alph = alphabets(tier, seed)
     names = sorted(rel.ids(version))
-    random.Random(ctx.seed * 31 + version).shuffle(names)
-    for name in rel.absent(version):
-        check_absent(ctx, version, name)
-        ctx.cls('absent entry %s' % name)
-        ctx.extra['absent_entries_judged'] = \
-            ctx.extra.get('absent_entries_judged', 0) + 1
+    random.Random(seed * 31 + version).shuffle(names)
+    if k == 0:
+        for name in rel.absent(version):
+            check_absent(ctx, version, name, rg)
+            if fresh:
+                ctx.cls('absent entry %s' % name)
+                ctx.extra['absent_entries_judged'] = \
+                    ctx.extra.get('absent_entries_judged', 0) + 1
     for name in names:
         if name not in PY:
             raise ToolError('no pyCraft mapping for %s' % name)
-        check_ids(ctx, version, name)
-        vs = vectors(alph, name, version, ctx.seed,
-                     4000 if ctx.thorough else 400)
-        if rel.layout(name, version):
-            ctx.note_distinct(len(vs))
-        for values in vs:
-            classify(ctx, version, name, values)
-            ok = check_case(ctx, version, name, values)
-            if ok and name in ('play.join_game', 'play.position_and_look',
-                               'sb.handshake') and version in (47, 757):
+        if k == 0:
+            check_ids(ctx, version, name, rg)
+        items = None if cache is None else cache.get((version, name))
+        if items is None:
+            items = [[values, None] for values in
+                     all_vectors(tier, seed, version, name)[k::K]]
+            if cache is not None:
+                cache[(version, name)] = items
+        if first and rel.layout(name, version):
+            ctx.note_distinct(len(items))
+        for it in items:
+            values, payload = it
+            if payload is None:
+                payload = rel.encode(name, version, values)
+                if cache is not None:
+                    it[1] = payload
+            if fresh:
+                classify(ctx, version, name, values)
+            ok = check_case(ctx, version, name, values, rg, payload)
+            if fresh and ok and name in (
+                    'play.join_game', 'play.position_and_look',
+                    'sb.handshake') and version in (47, 757):
                 ctx.sample({'version': version, 'packet': name,
-                            'frame': short(rel.packet_frame(
-                                name, version, values), 48)}, cap=2)
-        ctx.extra['packets_judged'] = ctx.extra.get('packets_judged', 0) + 1
+                            'frame': short(framing.frame(
+                                rel.ids(version)[name], payload), 48)}, cap=2)
+        if fresh:
+            ctx.extra['packets_judged'] = \
+                ctx.extra.get('packets_judged', 0) + 1
+    if k == 0:
+        cases = echo_cases(alph, version)
+        random.Random(seed * 131 + version).shuffle(cases)
+        if first:
+            ctx.note_distinct(len(cases))
+        for which, wire in cases:
+            check_echo(ctx, version, which, wire, rg)
+        if fresh:
+            ctx.extra['echo_cases_fresh'] = \
+                ctx.extra.get('echo_cases_fresh', 0) + len(cases)
+
+
+def walk_order(label):
+    R = list(rel.RELEASES)
+    if label == 'moving':       # oldest -> newest -> oldest
+        return R + R[-2::-1]
+    if label == 'live':         # alternately from both ends, twice through
+        return [w for pair in zip(R, R[::-1]) for w in pair]
+    raise ToolError('walk %r' % (label,))
+
+
+def history_walk(ctx, label, k, tier, seed):
+    """One walk of a non-fresh regime: its own context object(s), the
+    vectors k, k+WALKS, ... re-judged at every visit of a release."""
+    use_repo()
+    from minecraft.networking.connection import ConnectionContext
+    order = walk_order(label)
+    hist = {'label': label, 'walk': k, 'tier': tier, 'seed': seed}
+    if label == 'moving':
+        moving = ConnectionContext(protocol_version=order[0])
+    else:
+        live = dict((v, ConnectionContext(protocol_version=v))
+                    for v in rel.RELEASES)
+    cache, seen, prev = {}, set(), None
+    before = ctx.evaluations
+    for v in order:
+        if label == 'moving':
+            moving.protocol_version = v
+            context = moving
+        else:
+            context = live[v]
+        rg = Regime(label, context, hist, prev)
+        judge_release(ctx, v, rg, tier, seed, k, WALKS, cache,
+                      first=v not in seen)
+        if k == 0:
+            ctx.cls('%s context: visits of a release' % MODES[label][0][5:])
+            if label == 'moving' and prev is not None:
+                way = 'older' if prev < v else 'newer'
+                ctx.cls('re-assigned context: release entered from %s one'
+                        % ('an ' + way if way == 'older' else 'a ' + way))
+                ctx.extra['entered_from_' + way] = \
+                    ctx.extra.get('entered_from_' + way, []) + [v]
+            if label == 'live' and prev is not None:
+                ctx.extra['live_alternations'] = \
+                    ctx.extra.get('live_alternations', 0) + 1
+        seen.add(v)
+        prev = v
+    ctx.extra['evaluations_in_%s_walks' % MODES[label][0][5:]] = \
+        ctx.evaluations - before
+
+
+def worker(ctx, task):
+    use_repo()
+    if task[0] == 'release':
+        judge_release(ctx, task[1], FRESH, ctx.tier, ctx.seed)
+    else:
+        history_walk(ctx, task[1], task[2], ctx.tier, ctx.seed)
 
 
 REQUIRED_CLASSES = [
@@ -819,7 +1179,20 @@ REQUIRED_CLASSES = [
     'join game layout of 14 fields, dimension string',
     'join game layout of 15 fields, dimension nbt',
     'join game layout of 16 fields, dimension nbt',
-]
+    'string of exactly 32767 UTF-8 bytes',
+    'serverbound chat at its character limit, 3-byte characters',
+    'echo keep_alive id as varint, top bit of the wire type set',
+    'echo keep_alive id as varint, top bit of the wire type clear',
+    'echo keep_alive id as long, top bit of the wire type set',
+    'echo keep_alive id as long, top bit of the wire type clear',
+    'echo teleport id as varint, top bit of the wire type set',
+    'echo teleport id as varint, top bit of the wire type clear',
+    're-assigned context: release entered from an older one',
+    're-assigned context: release entered from a newer one',
+    're-assigned context: visits of a release',
+    'long-lived context: visits of a release',
+] + ['string over 32767 UTF-8 bytes within 32767 characters: %s' % n
+     for n, _ in LONG_STRING_FIELDS]
 
 
 def probe_nbt_framing(ctx):
@@ -846,6 +1219,22 @@ def probe_nbt_framing(ctx):
     return ok
 
 
+def fold_history_violations(ctx):
+    """A case that already fails with a fresh context is one finding, not
+    three: drop its re-statements from the walks (their counts are added).
+    What stays under a ' ctx=' key fails only with a used context."""
+    folded = 0
+    for key in sorted(ctx.violations):
+        for mode in ('moving', 'live'):
+            suffix = MODES[mode][0]
+            if key.endswith(suffix) and \
+                    key[:-len(suffix)] in ctx.violations:
+                ctx.violations[key[:-len(suffix)]]['n'] += \
+                    ctx.violations.pop(key)['n']
+                folded += 1
+    return folded
+
+
 def run(ctx):
     mc = use_repo()
     try:
@@ -857,7 +1246,19 @@ def run(ctx):
     ctx.extra['releases'] = list(rel.RELEASES)
     ctx.extra['releases_not_supported_by_tree'] = sorted(readme - supported)
     probe_nbt_framing(ctx)
-    ctx.pmap(worker, list(rel.RELEASES))
+    for _, text in long_strings(ctx.tier):     # memos shared by the fork
+        rel.string_field(text)
+        u8len(text)
+    for v in rel.RELEASES:      # once, before the fork: the walks share them
+        for name in rel.ids(v):
+            _VEC[(ctx.tier, ctx.seed, v, name)] = \
+                all_vectors(ctx.tier, ctx.seed, v, name)
+    tasks = [('walk', label, k) for k in range(WALKS)
+             for label in ('moving', 'live')]
+    tasks += [('release', v) for v in rel.RELEASES]
+    ctx.pmap(worker, tasks)
+    ctx.extra['violations_restated_by_walks_folded'] = \
+        fold_history_violations(ctx)
     ctx.extra['not_judged'] = list(rel.NOT_JUDGED)
     ctx.extra['table_entries_removed_after_disagreement'] = []
     missing = [c for c in REQUIRED_CLASSES if not ctx.classes.get(c)]
@@ -873,13 +1274,45 @@ def run(ctx):
     if ctx.extra.get('packets_judged') != sum(
             len(rel.ids(v)) for v in rel.RELEASES):
         raise ToolError('not every (release, packet) pair was judged')
+    # the walks: every release entered from an older and from a newer one
+    R = list(rel.RELEASES)
+    if sorted(set(ctx.extra.get('entered_from_older', []))) != R[1:] or \
+            sorted(set(ctx.extra.get('entered_from_newer', []))) != R[:-1]:
+        raise ToolError('re-assigned walk did not enter every release from '
+                        'both sides')
+    for label, name in (('moving', 're-assigned'), ('live', 'long-lived')):
+        if ctx.classes.get('%s context: visits of a release' % name) != \
+                len(walk_order(label)):
+            raise ToolError('%s walk incomplete' % name)
+    ctx.extra['context_regimes'] = {
+        'fresh': 'a new ConnectionContext per case',
+        're-assigned': '%d walks x %d visits (oldest -> newest -> oldest), '
+                       'one context object per walk'
+                       % (WALKS, len(walk_order('moving'))),
+        'long-lived': '%d walks x %d visits (47, 757, 107, 756, ...), %d '
+                      'contexts per walk created up front'
+                      % (WALKS, len(walk_order('live')), len(R)),
+    }
+    ctx.extra['long_strings'] = [
+        '%s (%d characters)' % (label, len(text))
+        for label, text in long_strings(ctx.tier)]
 
 
 def replay(ctx, case):
     use_repo()
+    hist = case.get('history')
+    if hist:
+        # an effect of earlier uses of the context needs the walk it was
+        # seen in (same slice of vectors, same tier and seed)
+        history_walk(ctx, hist['label'], hist['walk'], hist['tier'],
+                     hist['seed'])
+        return
     version, name = case['version'], case['name']
     if case.get('kind') == 'absent':
         check_absent(ctx, version, name)
+        return
+    if case.get('kind') == 'echo':
+        check_echo(ctx, version, case['echo'], case['wire'])
         return
     check_ids(ctx, version, name)
     if case.get('values') is not None:
